@@ -99,7 +99,8 @@ pub enum Pat {
     SomeInt(i128),
     /// plain f32 field: |observed - exact| <= ulps * ulp_f32(exact)
     Float { exact: f64, ulps: u32 },
-    /// `Some(x)` with x as above; an observed `None` is NOT judged here (presence is C11's)
+    /// `Some(x)` with x as above. An observed `None` fails too: the statement promises the scaled
+    /// value "for every raw value" (C11 judges presence as well; the overlap is deliberate)
     SomeFloatIfPresent { exact: f64, ulps: u32 },
     /// the value's Debug rendering equals one of these
     Render(Vec<String>),
@@ -549,7 +550,10 @@ impl<'a> B<'a> {
             vec![(Prop::C11, Pat::IsSome), (Prop::C10, Pat::SomeFloatIfPresent { exact: v as f64 / div, ulps })]
         };
         let min_neg = 1u64 << (w - 1);
-        self.push(name, st, w, Hint::Sentinels(vec![sentinel as u64 & ((1u64 << w) - 1), min_neg, min_neg - 1, (1u64 << w) - 1]), checks);
+        let m = (1u64 << w) - 1;
+        // the field's own code first; then the extremes, and the codes of the *other* resolution
+        // (ordinary positions here, which must not be mistaken for 'not available')
+        self.push(name, st, w, Hint::Sentinels(vec![sentinel as u64 & m, min_neg, min_neg - 1, m, 108_600 & m, 54_600 & m, 108_600_000 & m, 54_600_000 & m]), checks);
     }
     fn lon28(&mut self, name: &str) {
         self.coord(name, 28, 108_600_000, 600_000.0, ULP_COORD)
@@ -1119,9 +1123,6 @@ pub fn pat_matches(p: &Pat, v: &Val) -> bool {
             _ => false,
         },
         Pat::SomeFloatIfPresent { exact, ulps } => {
-            if v.is_none() {
-                return true;
-            }
             match v.some() {
                 Some(Val::Float(o, _)) => float_close(*o, *exact, *ulps),
                 Some(Val::Int(o)) => float_close(*o as f64, *exact, *ulps),
